@@ -43,7 +43,7 @@ def envF : Env Float Layer (List Float) where
   dense := denseF
   interp := interpF
   sample := fun g eps => List.zipWith (· + ·) g.loc (List.zipWith (· * ·) g.scale eps)
-  exp := fun v => v.map Float.exp
+  exp := Float.exp
   sqrt := Float.sqrt
   tanh := Float.tanh
 
